@@ -523,13 +523,23 @@ def c07 (h : H) : List String :=
       then some "C07:call-to-a-registered-protocol-answered-not-found" else none
     | _ => none)
 
+/-! ### C19 — the tags the handler sees are the tags the caller supplied (own tags, the shared parent's, and what
+    the client's tag-extraction function joins), none when none were supplied -/
+
+def c19 (h : H) : List String :=
+  let os := ops h
+  (invocations h).filterMap fun (_, _, _, _, n, tg) =>
+    match os.find? (fun o => o.nonce = n) with
+    | some o => if o.tagged ≠ tg then some "C19:handler-tags-differ-from-the-callers" else none
+    | none => none
+
 def harnessTrouble (h : H) : List String :=
   h.filterMap fun e => match e with
     | .harness m => some ("HARNESS:" ++ m)
     | _ => none
 
 def all (max : Nat) (h : H) : List String :=
-  (c01 h ++ c03 max h ++ c07 h ++ c08 h ++ c09 h ++ c10 h ++ c11 h ++ c12 h ++ c13 h ++ c20 h ++
+  (c01 h ++ c03 max h ++ c07 h ++ c08 h ++ c09 h ++ c10 h ++ c11 h ++ c12 h ++ c13 h ++ c19 h ++ c20 h ++
     harnessTrouble h).eraseDups
 
 end Mon
